@@ -402,6 +402,8 @@ def _gen_cigar(tape, tag, max_ops, max_query):
         return [("M", 1 + tape.draw(max(max_query, 1), tag + "cigar.len"))] if max_query >= 1 else [("D", 1)]
     rem = [max_query]
 
+    huge_used = [False]
+
     def qlen(label):
         if rem[0] <= 0:
             return 0
@@ -411,7 +413,12 @@ def _gen_cigar(tape, tag, max_ops, max_query):
 
     def rlen(label, op):
         if op == "N":
-            k = tape.weighted([(3, "small"), (1, "big")], label + ".mag")
+            k = tape.weighted([(6, "small"), (2, "big"), (1 if not huge_used[0] else 0, "huge")], label + ".mag")
+            if k == "huge":
+                # the operation length is a 28-bit field: values around 2**27 and up to 2**28 - 1 (one per record, so that
+                # position + reference length stays inside the 31-bit coordinate range)
+                huge_used[0] = True
+                return [2 ** 27 - 1, 2 ** 27, 2 ** 27 + 5, 140000000, 2 ** 28 - 1][tape.draw(5, label + ".huge")]
             return 1 + (tape.draw(30, label) if k == "small" else tape.draw(200000, label))
         return 1 + tape.draw(30, label)
 
